@@ -83,6 +83,16 @@ def as_dtype(idx, dt):
   return idx.tolist() if dt == 'pylist' else idx.astype(dt)
 
 
+def single_thread():
+  """tiny problems: the BLAS / OpenMP pools of scikit-learn's KMeans and k-NN cost 100x more than they save"""
+  try:
+    from threadpoolctl import threadpool_limits
+    return threadpool_limits(limits=1)
+  except Exception:
+    import contextlib
+    return contextlib.nullcontext()
+
+
 def same(a, b):
   a, b = np.asarray(a), np.asarray(b)
   if a.shape != b.shape:
@@ -291,7 +301,8 @@ def fit_problem(rng, cls, pattern):
 def fit_outcome(ml, cls, prep, data, args, test_points, test_arg):
   def go():
     est = new_estimator(ml, cls, prep)
-    est.fit(data, *args)
+    with single_thread():
+      est.fit(data, *args)
     out = dict(components_=np.array(est.components_))
     if KIND[cls][0] == 'pairs':
       out['threshold_'] = np.array([est.threshold_])
@@ -391,7 +402,7 @@ def cases(tier, seed):
                     check_error(ml, cls, None, pdesc, prep_fit, bad_index, idx, 'fit', args), 'fit', desc))
   # ---- real fits
   cache = {}
-  variants = (('repeats', 'int32'), ('permutation', 'uint8')) if quick else \
+  variants = (('repeats', 'int32'), ('permutation', 'uint8'), ('sorted', 'int64'), ('repeats', 'pylist')) if quick else \
       tuple((p, dt) for p in ('repeats', 'permutation', 'sorted') for dt in ('int8', 'int32', 'int64', 'uint8', 'uint64', 'pylist'))
   for cls in PUBLIC:
     for vi, (pattern, dt) in enumerate(variants):
@@ -437,7 +448,7 @@ def run(tier, seed):
                    'with formed data with preprocessor; (errors) 17 classes x 10 failing preprocessors x every method + fit; (fit) 17 real fits x {ndarray, list, callable} '
                    'x indicator variants; distinct = distinct (class, method, preprocessor kind, dtype, pattern, transformation); %d failing cases in total' % total_bad,
               bound='n_features 3; pool of 23 points (fit: 42), 9 points / tuples per call (fit: 24-46); %s'
-                    % ('one pattern per (class, preprocessor, dtype), 2 fit variants' if tier == 'quick' else 'all 5 patterns, 18 fit variants'),
+                    % ('one pattern per (class, preprocessor, dtype), 4 fit variants' if tier == 'quick' else 'all 5 patterns, 18 fit variants'),
               standin_samples=samples, violations=vio)
 
 
